@@ -51,6 +51,12 @@ def _gen_and_build(ctx):
     b = ctx.coq_build_cached(MODEL_FILES, deps=MODEL_DEPS, timeout=600)
     if not b["ok"]:
         return b
+    # SemProofs.v needs C14/WordClosed.vo; in a fresh copy nothing has built it yet when this part (or its prebuild) runs
+    # first, so build it here (content-keyed: a no-op when the rangefix/venom link part already did)
+    from . import c14_fixvenom
+    b = ctx.coq_build_cached(["C14/WordClosed.v"], deps=list(c14_fixvenom.DEPS), timeout=900)
+    if not b["ok"]:
+        return b
     files = [f for f in PROOF_FILES if (COQ / f).exists()]
     return ctx.coq_build_cached(files, deps=_proof_deps() + MODEL_FILES, timeout=900)
 
